@@ -13,6 +13,7 @@ def sharedWrites : List SharedWrite := [
   { path := "typedpy/fields/map_field.py", file := "map_field.py", func := "Map.__set__", attr := "_name", target := "value_field", valueKind := .ownerName, readBack := true },
   { path := "typedpy/fields/multified_wrappers.py", file := "multified_wrappers.py", func := "AllOf.__set__", attr := "_name", target := "field", valueKind := .ownerName, readBack := true },
   { path := "typedpy/fields/multified_wrappers.py", file := "multified_wrappers.py", func := "AnyOf.__set__", attr := "_name", target := "field", valueKind := .ownerName, readBack := true },
+  { path := "typedpy/fields/multified_wrappers.py", file := "multified_wrappers.py", func := "AnyOf.serialize", attr := "_name", target := "field", valueKind := .ownerName, readBack := true },
   { path := "typedpy/fields/multified_wrappers.py", file := "multified_wrappers.py", func := "OneOf.__set__", attr := "_name", target := "field", valueKind := .ownerName, readBack := true },
   { path := "typedpy/fields/multified_wrappers.py", file := "multified_wrappers.py", func := "NotField.__set__", attr := "_name", target := "field", valueKind := .ownerName, readBack := true },
   { path := "typedpy/fields/set_field.py", file := "set_field.py", func := "Set.__set__", attr := "_name", target := "self.items", valueKind := .ownerName, readBack := true },
@@ -25,7 +26,7 @@ def sharedWrites : List SharedWrite := [
   { path := "typedpy/serialization/serialization.py", file := "serialization.py", func := "_get_enum_mapping", attr := "<lru_cache>", target := "<module>", valueKind := .keyedCache, readBack := true },
   { path := "typedpy/serialization/serialization.py", file := "serialization.py", func := "_get_class_deserialization_mapping_for_simple_class", attr := "<lru_cache>", target := "<module>", valueKind := .keyedCache, readBack := true },
   { path := "typedpy/serialization/serialization.py", file := "serialization.py", func := "serialize_internal", attr := "<dynamic>", target := "cls", valueKind := .definitionOnly, readBack := false },
-  { path := "typedpy/structures/structures.py", file := "structures.py", func := "UniqueMixin.__manage_uniqueness_for_field__", attr := "<container>", target := "instance_by_value_for_current_struct", valueKind := .readModifyWrite, readBack := true }
+  { path := "typedpy/structures/structures.py", file := "structures.py", func := "UniqueMixin.__manage_uniqueness_for_field__", attr := "<container>", target := "instance_by_value_for_current_struct", valueKind := .keyedCache, readBack := false }
 ]
 
 end Typedpy.Pinned
